@@ -76,6 +76,7 @@ func (s *Sweeper) sweep(ctx context.Context) error {
 
 	retention := s.conf.RetentionDuration()
 	cutoff := time.Now().Add(-retention)
+	cutoff = verifNow(cutoff.Add(retention)).Add(-retention)
 	cutoffTS := header.TimestampFromTime(cutoff)
 
 	s.l.WithField("cutoff", cutoff).Debug("Sweep started")
@@ -163,6 +164,7 @@ func (s *Sweeper) sweep(ctx context.Context) error {
 			})
 			if limitReached {
 				l.Debug("Sweep limit reached, continuing after pause")
+				verifYield("slice")
 				// Give the app some room to get a write lock before continuing
 				if err := utils.SleepContext(ctx, s.conf.ReleaseDuration); err != nil {
 					return err
